@@ -103,14 +103,87 @@ class IfNot(ast.NodeTransformer):
         return node
 
 
-TRANSFORMS = {'rename': Rename, 'swapcmp': SwapCmp, 'pad': Pad, 'ifnot': IfNot, 'unparse': None}
 
 
+
+
+
+class _DefIndex(ast.NodeVisitor):
+    def __init__(self):
+        self.defs = {}
+
+    def visit_FunctionDef(self, node):
+        self.defs.setdefault(node.name, []).append(node)
+        self.generic_visit(node)
+    visit_AsyncFunctionDef = visit_FunctionDef
+
+
+_PKG_DEFS = {}
+
+
+def index_package(pkg_dir):
+    """name -> the single def with that name in the package (names defined more than once are dropped)."""
+    idx = _DefIndex()
+    for root, _, files in os.walk(pkg_dir):
+        for f in files:
+            if f.endswith('.py'):
+                with open(os.path.join(root, f), encoding='utf-8') as fp:
+                    idx.visit(ast.parse(fp.read()))
+    import builtins
+    lib = set(dir(dict)) | set(dir(list)) | set(dir(set)) | set(dir(str)) | set(dir(builtins))
+    try:
+        import numpy as np, networkx as nx
+        lib |= set(dir(np)) | set(dir(np.ndarray)) | set(dir(nx.MultiDiGraph)) | set(dir(nx))
+    except ImportError:
+        pass
+    _PKG_DEFS.clear()
+    for name, ds in idx.defs.items():
+        if len(ds) == 1 and name not in lib and not name.startswith('__'):
+            d = ds[0]
+            if d.args.vararg or d.args.posonlyargs:
+                continue
+            decos = {ast.unparse(x) for x in d.decorator_list}
+            if decos - {'staticmethod', 'classmethod', 'cached_function'}:
+                continue
+            _PKG_DEFS[name] = d
+
+
+class PosToKw(ast.NodeTransformer):
+    """`f(a, b, c)` -> `f(a, y=b, z=c)` for calls whose callee name is defined exactly once in the package."""
+    def visit_Call(self, node):
+        self.generic_visit(node)
+        name = node.func.attr if isinstance(node.func, ast.Attribute) else \
+            (node.func.id if isinstance(node.func, ast.Name) else None)
+        d = _PKG_DEFS.get(name)
+        if d is None or any(isinstance(a, ast.Starred) for a in node.args) or len(node.args) < 2:
+            return node
+        params = [a.arg for a in d.args.args]
+        is_method = bool(params) and params[0] in ('self', 'cls')
+        bound = isinstance(node.func, ast.Attribute)
+        if is_method and bound:
+            params = params[1:]
+        elif is_method and not bound:
+            return node
+        if len(node.args) > len(params):
+            return node
+        used = {k.arg for k in node.keywords}
+        keep, conv = node.args[:1], node.args[1:]
+        names = params[1:1 + len(conv)]
+        if any(nm in used for nm in names):
+            return node
+        node.args = keep
+        node.keywords = [ast.keyword(arg=nm, value=v) for nm, v in zip(names, conv)] + node.keywords
+        return node
+
+
+TRANSFORMS = {'pos2kw': PosToKw, 'rename': Rename, 'swapcmp': SwapCmp, 'pad': Pad, 'ifnot': IfNot, 'unparse': None}
 
 
 def apply_to_package(pkg_dir, name):
     """Rewrite every module below pkg_dir (tests excluded) in place; returns the number of modules."""
     tr = TRANSFORMS[name]
+    if name == 'pos2kw':
+        index_package(pkg_dir)
     n = 0
     for root, _, files in os.walk(pkg_dir):
         if '/tests' in root + '/':
